@@ -20,12 +20,12 @@ func init() {
 		"C07-accept (a failing Accept that is not the shutting-down case has a path back to the accept loop), C07-noexit (no os.Exit / log.Fatal / runtime.Goexit / undischarged explicit panic reachable from connection or request goroutines), " +
 		"C07-contained (connection/request goroutines never cancel the server context or close the listener), C07-lockbalance (every Unlock/RUnlock, explicit or deferred, finds its mutex locked on every path: unlocking an unlocked mutex is a fatal error no recover() contains). Decides fencing and survival of the accept loop; does not decide that bystanders receive correct answers."
 	Descriptions["C11"] = "Necessary structural condition for bounded Stop: C11-sites (blocking socket I/O sites on connection/request goroutines enumerated), " +
-		"C11-lockrelease (every Lock/RLock in gldap is released on every path to the function's exit), C11-accounting (every connWg.Add is matched by a Done on every path, rules C12-done-last / C12-add-vs-wait), C11-waker-lifetime (a watcher goroutine that can be told to stop is told so only after (*conn).close has waited for the handlers), C11-waker (some code that runs asynchronously to those goroutines closes or deadlines every connection's socket once shutdownCtx is cancelled, and it is started for every accepted connection before its first read), " +
+		"C11-lockrelease (every Lock/RLock in gldap is released on every path to the function's exit), C11-accounting (every connWg.Add is matched by a Done on every path, rules C12-done-last / C12-add-vs-wait), C11-waker-lifetime (a watcher goroutine that can be told to stop is told so only after (*conn).close has waited for the handlers), C11-waker (some code that runs asynchronously to those goroutines closes or deadlines every connection's socket once shutdownCtx is cancelled, and it is started for every accepted connection before its first read), C11-waker-first (no call that reaches ber.ReadPacket, a bufio.Writer write/flush, a net.Conn/tls.Conn read/write or a TLS handshake lies on a path of the connection goroutine before the watcher start), " +
 		"C11-stop-order (listener.Close and cancel precede connWg.Wait), C11-run-nil (shutdown exits of Run return nil), C11-nolock (connection goroutines never take Server.mu, which Stop holds across Wait). The time bound itself is not decided."
 	Descriptions["C17"] = "C17-guard (every store of true to Server.listenerReady is control-dependent on net.Listen's error being nil), C17-who (the flag is written only in Run (true) / Stop (false), under Server.mu), " +
-		"C17-errors (no error return of Run before or at the listen failure follows a store of true), C17-getter (Ready returns the field under the lock). Kernel-level accept behaviour is not decided."
+		"C17-errors (no error return of Run before or at the listen failure follows a store of true), C17-serves (no error return of Run between making Ready true and the first Accept), C17-accept-retry (a temporary Accept error never ends Run), C17-getter (Ready returns the field under the lock). Kernel-level accept behaviour is not decided."
 	Descriptions["C18"] = "C18-wrap (when opts.withTLSConfig != nil the listener Accept is called on is tls.NewListener(plain, thatConfig), installed before the accept loop and never replaced), " +
-		"C18-noplain (newConn receives the Accept result itself; no code reads the underlying socket; read errors end the connection), " +
+		"C18-noplain (newConn receives the Accept result itself; every stream handed to initConn traces back to Accept's result, conn.netConn or tls.Server of those; no code reads the underlying socket; read errors end the connection), " +
 		"C18-directory (testdirectory.GetTLSConfig with WithMTLS sets ClientAuth = RequireAndVerifyClientCert and ClientCAs = the pool of the CA created in the same call, and never weakens verification; Start passes that config to Run unless WithNoTLS). crypto/tls itself is trusted."
 }
 
@@ -206,6 +206,38 @@ func checkC17(c *Ctx) {
 			continue
 		}
 		R.Check(cnt[ret] == an.C0, "C17-errors", "(*Server).Run: error return at "+retKindListen(ret, listen), c.pos(ret), "no store of true on any path to it", "Run returns an error after having set Ready to true")
+	}
+	// C17-serves: once the listen has succeeded (and Ready is, or is about to be, true) Run goes on to Accept: it
+	// does not give up with an error of its own making between making Ready true and the first Accept - its deferred listener.Close would
+	// leave Ready() true with nothing listening. (Returning nil because Stop was called is the statement's end.)
+	if pt := listenPoint[m.run]; pt != nil {
+		giveUp := func(in ssa.Instruction) bool {
+			ret, ok := in.(*ssa.Return)
+			if !ok {
+				return false
+			}
+			res := an.ReturnResults(ret)
+			return len(res) == 1 && !an.IsNilConst(an.Strip(res[0])) && !listenFailed(ret.Block())
+		}
+		// from the store(s) that make Ready true when they are Run's own, else from the listen helper's return
+		var starts []an.Point
+		for in := range trueWrites {
+			starts = append(starts, an.After(in))
+		}
+		if len(starts) == 0 {
+			starts = append(starts, an.After(pt))
+		}
+		var w []ssa.Instruction
+		for _, st := range starts {
+			if w == nil {
+				w = an.SearchCorr(st, giveUp, isInstr(m.accept), nil)
+			}
+		}
+		if w != nil {
+			R.Fail("C17-serves", "(*Server).Run: after a successful listen Run reaches Accept", c.pos(w[len(w)-1]), "Run can return an error after the listen succeeded and before it ever accepts (its deferred Close then unbinds the port while Ready() stays true): "+c.trail(w))
+		} else {
+			R.OK("C17-serves", "(*Server).Run: after a successful listen Run reaches Accept", c.pos(m.accept), "no error return lies between the successful listen and the first Accept")
+		}
 	}
 	// C17-getter
 	ls := an.LockSets(ready, nil)
@@ -537,6 +569,7 @@ func checkC18(c *Ctx) {
 	ex, isEx := sock.(*ssa.Extract)
 	R.Check(isEx && ex.Tuple == ssa.Value(m.accept) && ex.Index == 0, "C18-noplain", "(*Server).Run: newConn gets the accepted connection itself", c.pos(m.newConn), "the (TLS) connection returned by Accept is what the read loop reads from", "newConn receives "+an.Path(m.newConn.Common().Args[2])+" instead of Accept's result")
 	c.checkSocketDiscipline("C18-noplain")
+	c.checkStreamProvenance("C18-noplain", m)
 	c.checkReadErrorsEndConnection("C18-noplain", m)
 
 	// ---- C18-directory
@@ -1581,6 +1614,59 @@ func checkC11(c *Ctx) {
 		R.Fail("C11-waker", key, c.pos(m.readReq), "nothing closes or deadlines a connection that is blocked in ReadPacket/Write when Stop is called: the shutdown check runs only between requests, so one idle client keeps Stop from returning")
 	}
 
+	// ---- C11-waker-first: the connection goroutine does no blocking socket I/O (a read, a write, a handshake) before
+	// the waker that covers it is started: I/O begun earlier is not interrupted by Stop
+	for _, w := range used {
+		if w.start == nil {
+			continue
+		}
+		sf := w.start.Parent()
+		var regions []struct {
+			fn   *ssa.Function
+			stop ssa.Instruction
+		}
+		switch sf {
+		case m.connFn:
+			regions = append(regions, struct {
+				fn   *ssa.Function
+				stop ssa.Instruction
+			}{m.connFn, w.start})
+		case m.serve:
+			regions = append(regions, struct {
+				fn   *ssa.Function
+				stop ssa.Instruction
+			}{m.connFn, m.serveCall}, struct {
+				fn   *ssa.Function
+				stop ssa.Instruction
+			}{m.serve, w.start})
+		default:
+			continue // started before the connection goroutine exists
+		}
+		bad := 0
+		for _, rg := range regions {
+			for _, ci := range an.Calls(rg.fn) {
+				if isGo(ci) || ci == rg.stop {
+					continue
+				}
+				if _, isDefer := ci.(*ssa.Defer); isDefer {
+					continue
+				}
+				site := c.blockingSocketIO(ci, map[*ssa.Function]bool{})
+				if site == "" {
+					continue
+				}
+				if an.Search(an.Entry(rg.fn), isInstr(ci), isInstr(rg.stop)) != nil {
+					bad++
+					R.Fail("C11-waker-first", fname(rg.fn)+": no blocking socket I/O before the shutdown watcher is started", c.pos(ci), "the connection goroutine can block in "+site+" before the watcher that interrupts its I/O on shutdown is started ("+c.pos(w.start)+"): a client stalling there keeps Stop waiting")
+				}
+			}
+		}
+		if bad == 0 {
+			R.OK("C11-waker-first", fname(sf)+": no blocking socket I/O before the shutdown watcher is started", c.pos(w.start), "no call that reaches ReadPacket, a bufio.Writer write/flush, a net.Conn read/write or a TLS handshake lies on a path of the connection goroutine before the watcher start")
+		}
+		break
+	}
+
 	// ---- C11-waker-lifetime: a goroutine waker that can also be told to stop (select with another channel)
 	// must stay armed until the connection's handlers have ended, i.e. until (*conn).close has returned in the
 	// teardown: a handler blocked in a write after the read loop ended still has to be interrupted by Stop.
@@ -2032,4 +2118,146 @@ func (c *Ctx) listenErrIn(fn *ssa.Function, listen *ssa.Call) (func(ssa.Value) b
 		}
 	}
 	return func(x ssa.Value) bool { return an.Strip(x) == ssa.Value(hcall) }, hcall, ""
+}
+
+// blockingSocketIO reports the blocking socket I/O a call performs, directly
+// or in a module function it runs synchronously: ber.ReadPacket, a bufio.Writer
+// Write/Flush, a Read/Write on a net.Conn / tls.Conn, or a TLS handshake.
+func (c *Ctx) blockingSocketIO(ci ssa.CallInstruction, seen map[*ssa.Function]bool) string {
+	cc := ci.Common()
+	switch {
+	case an.CalleeIs(cc, an.PkgBer, "ReadPacket"):
+		return "ber.ReadPacket"
+	case func() bool { n, _, ok := isBufioWriterMethod(cc); return ok && (n == "Write" || n == "Flush") }():
+		return "bufio.Writer." + cc.StaticCallee().Name()
+	}
+	if f := cc.StaticCallee(); f != nil && an.FuncPkgPath(f) == "crypto/tls" && f.Signature.Recv() != nil {
+		switch f.Name() {
+		case "Handshake", "HandshakeContext", "Read", "Write":
+			return "tls.Conn." + f.Name()
+		}
+	}
+	if cc.IsInvoke() && (cc.Method.Name() == "Read" || cc.Method.Name() == "Write") && an.TypeIs(cc.Value.Type(), "net", "Conn") {
+		return "net.Conn." + cc.Method.Name()
+	}
+	for _, u := range syncCalleesOf(ci) {
+		if seen[u] {
+			continue
+		}
+		seen[u] = true
+		for _, ic := range an.Calls(u) {
+			if isGo(ic) {
+				continue
+			}
+			if s := c.blockingSocketIO(ic, seen); s != "" {
+				return s + " (via " + fname(u) + ")"
+			}
+		}
+	}
+	return ""
+}
+
+// syncCalleesOf: the module functions one call instruction runs.
+func syncCalleesOf(ci ssa.CallInstruction) []*ssa.Function {
+	if f := an.StaticCallee(ci.Common()); f != nil && an.InModule(f) && len(f.Blocks) > 0 {
+		return []*ssa.Function{f}
+	}
+	return invokeTargets(ci.Parent().Prog, ci.Common())
+}
+
+// checkStreamProvenance: the connection a conn reads requests from is the one
+// Accept returned (the TLS connection on a TLS listener) or a TLS layer built
+// on the conn's current socket - never a socket dug out from somewhere else
+// (the raw connection underneath a failed handshake, a fresh dial, ...).
+func (c *Ctx) checkStreamProvenance(rule string, m *serverModel) {
+	shipped := c.shippedFuncs(G)
+	var origin func(v ssa.Value, seen map[ssa.Value]bool) string
+	origin = func(v ssa.Value, seen map[ssa.Value]bool) string {
+		if seen[v] {
+			return ""
+		}
+		seen[v] = true
+		switch x := v.(type) {
+		case *ssa.MakeInterface:
+			return origin(x.X, seen)
+		case *ssa.ChangeInterface:
+			return origin(x.X, seen)
+		case *ssa.ChangeType:
+			return origin(x.X, seen)
+		case *ssa.TypeAssert:
+			return origin(x.X, seen)
+		case *ssa.Phi:
+			for _, e := range x.Edges {
+				if why := origin(e, seen); why != "" {
+					return why
+				}
+			}
+			return ""
+		case *ssa.Extract:
+			if ta, ok := x.Tuple.(*ssa.TypeAssert); ok && x.Index == 0 {
+				return origin(ta.X, seen)
+			}
+			if x.Tuple == ssa.Value(m.accept) && x.Index == 0 {
+				return ""
+			}
+			return "comes from " + an.Path(x)
+		case *ssa.UnOp:
+			if x.Op == token.MUL {
+				if _, ok := fieldAddr(x.X, G, "conn", "netConn"); ok {
+					return ""
+				}
+				if al, ok := an.CellRoot(x.X).(*ssa.Alloc); ok {
+					sts, esc := an.CellStores(al)
+					if esc {
+						return "is held in a variable whose address escapes"
+					}
+					for _, st := range sts {
+						if why := origin(st.Val, seen); why != "" {
+							return why
+						}
+					}
+					return ""
+				}
+			}
+			return "comes from " + an.Path(x)
+		case *ssa.Call:
+			if an.CalleeIs(x.Common(), "crypto/tls", "Server") {
+				return origin(x.Common().Args[0], seen)
+			}
+			return "comes from " + an.Path(x)
+		case *ssa.FreeVar:
+			if b := an.FreeVarBinding(x); b != nil {
+				return origin(b, seen)
+			}
+			return "comes from a captured variable"
+		case *ssa.Parameter:
+			fn := x.Parent()
+			idx := -1
+			for i, p := range fn.Params {
+				if p == x {
+					idx = i
+				}
+			}
+			sites := callSites(shipped, func(cc *ssa.CallCommon) bool { return an.StaticCallee(cc) == fn })
+			if len(sites) == 0 || idx < 0 {
+				return "is parameter " + x.Name() + " of " + fname(fn) + ", which has no resolvable caller"
+			}
+			for _, ci := range sites {
+				if why := origin(ci.Common().Args[idx], seen); why != "" {
+					return why
+				}
+			}
+			return ""
+		}
+		return "comes from " + an.Path(v)
+	}
+	n := 0
+	for _, ci := range callSites(shipped, func(cc *ssa.CallCommon) bool { return an.CalleeIs(cc, G, "(*conn).initConn") }) {
+		n++
+		why := origin(ci.Common().Args[1], map[ssa.Value]bool{})
+		c.R.Check(why == "", rule, fname(ci.Parent())+": initConn installs the accepted connection or a TLS layer on it", c.pos(ci), "the stream given to initConn is Accept's result, conn.netConn, or tls.Server(...) of those", "the connection's reader/writer are re-pointed at a socket that "+why+": bytes that did not arrive through the accepted (TLS) connection would be served")
+	}
+	if n == 0 {
+		c.R.Unknown(rule, "initConn call sites", c.pos(m.newConn), "no call of (*conn).initConn found")
+	}
 }
